@@ -491,12 +491,28 @@ func runC17(p *core.Prog, r *core.Result) {
 
 	// classify paths by current byte
 	type byteClass struct {
-		K       int64 // -1 = default
+		K       int64          // -1 = default
+		Set     map[int64]bool // the bytes a helper predicate over the current byte admits (K == -2)
 		Exclude map[int64]bool
 	}
 	classOf := func(pt gPath) byteClass {
 		bc := byteClass{K: -1, Exclude: map[int64]bool{}}
 		for _, c := range pt.Conds {
+			// a helper predicate over the current byte: `isMeta(b)`
+			if call, isCall := c.Cond.(*ssa.Call); isCall && len(call.Call.Args) == 1 && call.Call.Args[0] == cur {
+				if set, ok := constSetPredicate(core.Callee(call)); ok {
+					if c.Val {
+						if bc.K == -1 {
+							bc.K, bc.Set = -2, set
+						}
+					} else {
+						for k := range set {
+							bc.Exclude[k] = true
+						}
+					}
+				}
+				continue
+			}
 			bo, ok := c.Cond.(*ssa.BinOp)
 			if !ok || bo.Op != token.EQL || bo.X != cur {
 				continue
@@ -506,10 +522,20 @@ func runC17(p *core.Prog, r *core.Result) {
 				continue
 			}
 			if c.Val {
-				bc.K = k
+				bc.K, bc.Set = k, nil
 			} else {
 				bc.Exclude[k] = true
 			}
+		}
+		if bc.K == -2 {
+			// bytes excluded earlier on the path do not reach the predicate's branch
+			live := map[int64]bool{}
+			for k := range bc.Set {
+				if !bc.Exclude[k] {
+					live[k] = true
+				}
+			}
+			bc.Set = live
 		}
 		return bc
 	}
@@ -556,10 +582,16 @@ func runC17(p *core.Prog, r *core.Result) {
 	var defaults []gPath
 	for _, pt := range paths {
 		bc := classOf(pt)
-		if bc.K >= 0 {
+		switch {
+		case bc.K >= 0:
 			handled[bc.K] = true
 			byK[bc.K] = append(byK[bc.K], pt)
-		} else {
+		case bc.K == -2:
+			for k := range bc.Set {
+				handled[k] = true
+				byK[k] = append(byK[k], pt)
+			}
+		default:
 			defaults = append(defaults, pt)
 		}
 	}
@@ -917,38 +949,151 @@ func fragIs(frag, kind string) bool {
 	return false
 }
 
-// constSetPredicate recognises `func(c byte) bool { return c == K1 || c == K2 || … }` and returns {K1, K2, …}.
+// constSetPredicate returns the set of byte values for which the one-parameter boolean helper h returns true. h must
+// be loop-free and built from comparisons of its parameter with constants, membership tests of the parameter in a
+// constant string (strings.IndexByte / IndexRune / ContainsRune), negation, short-circuit phis and switch chains. The
+// set is computed by enumerating the paths of h and filtering the 256 byte values through the conditions of each path
+// (a powerset-of-bytes abstract domain: exact on this finite domain).
 func constSetPredicate(h *ssa.Function) (map[int64]bool, bool) {
 	if h == nil || h.Blocks == nil || len(h.Params) != 1 || h.Signature.Results().Len() != 1 {
 		return nil, false
 	}
-	set := map[int64]bool{}
-	ok := true
-	core.Instrs(h, func(in ssa.Instruction) {
-		switch x := in.(type) {
-		case *ssa.BinOp:
-			k, isConst := core.ConstInt(x.Y)
-			if x.Op != token.EQL || x.X != ssa.Value(h.Params[0]) || !isConst {
-				ok = false
-				return
-			}
-			set[k] = true
-		case *ssa.If, *ssa.Jump, *ssa.Phi, *ssa.Return, *ssa.DebugRef:
-		default:
-			ok = false
-		}
-	})
-	if !ok || len(set) == 0 {
+	if b, ok := h.Signature.Results().At(0).Type().Underlying().(*types.Basic); !ok || b.Kind() != types.Bool {
 		return nil, false
 	}
-	// the result must be the disjunction: every return value is a phi/const chain that is true exactly on a matching edge;
-	// verified by evaluating the facts implied by "returns false": every comparison must then be false
-	for _, ret := range core.ReturnsOf(h) {
-		rv := core.RetVals(ret)[0]
-		if c, isConst := core.ConstBool(rv); isConst && c {
-			continue
+	for _, b := range h.Blocks {
+		if core.Reaches(b, b, false) {
+			return nil, false
 		}
-		_ = rv
+	}
+	prm := h.Params[0]
+	bad := false
+	// eval evaluates the pure expression v for the parameter value c along the path (for phis)
+	var eval func(v ssa.Value, c int64, path []*ssa.BasicBlock) int64
+	eval = func(v ssa.Value, c int64, path []*ssa.BasicBlock) int64 {
+		switch x := v.(type) {
+		case *ssa.Parameter:
+			if x == prm {
+				return c
+			}
+		case *ssa.Const:
+			if b, ok := core.ConstBool(x); ok {
+				if b {
+					return 1
+				}
+				return 0
+			}
+			if k, ok := core.ConstInt(x); ok {
+				return k
+			}
+		case *ssa.Convert:
+			return eval(x.X, c, path)
+		case *ssa.ChangeType:
+			return eval(x.X, c, path)
+		case *ssa.UnOp:
+			if x.Op == token.NOT {
+				return 1 - eval(x.X, c, path)
+			}
+		case *ssa.BinOp:
+			a, b := eval(x.X, c, path), eval(x.Y, c, path)
+			t := false
+			switch x.Op {
+			case token.EQL:
+				t = a == b
+			case token.NEQ:
+				t = a != b
+			case token.LSS:
+				t = a < b
+			case token.LEQ:
+				t = a <= b
+			case token.GTR:
+				t = a > b
+			case token.GEQ:
+				t = a >= b
+			default:
+				bad = true
+			}
+			if t {
+				return 1
+			}
+			return 0
+		case *ssa.Phi:
+			for i := len(path) - 1; i > 0; i-- {
+				if path[i] == x.Block() {
+					for ei, pr := range x.Block().Preds {
+						if pr == path[i-1] {
+							return eval(x.Edges[ei], c, path[:i])
+						}
+					}
+				}
+			}
+		case *ssa.Call:
+			cal := core.Callee(x)
+			if cal != nil && len(x.Call.Args) == 2 {
+				if str, ok := core.ConstString(x.Call.Args[0]); ok {
+					k := eval(x.Call.Args[1], c, path)
+					idx := int64(-1)
+					for i := 0; i < len(str); i++ {
+						if int64(str[i]) == k && str[i] < 0x80 {
+							idx = int64(i)
+							break
+						}
+					}
+					switch core.CalleeKey(cal) {
+					case "strings.IndexByte", "strings.IndexRune":
+						return idx
+					case "strings.ContainsRune":
+						if idx >= 0 {
+							return 1
+						}
+						return 0
+					}
+				}
+			}
+		}
+		bad = true
+		return 0
+	}
+	set := map[int64]bool{}
+	nPaths := 0
+	var walk func(b *ssa.BasicBlock, path []*ssa.BasicBlock, live []int64)
+	walk = func(b *ssa.BasicBlock, path []*ssa.BasicBlock, live []int64) {
+		nPaths++
+		if nPaths > 4096 || bad || len(live) == 0 {
+			return
+		}
+		path = append(append([]*ssa.BasicBlock{}, path...), b)
+		switch last := b.Instrs[len(b.Instrs)-1].(type) {
+		case *ssa.Return:
+			for _, c := range live {
+				if eval(last.Results[0], c, path) != 0 {
+					set[c] = true
+				}
+			}
+		case *ssa.If:
+			var t, f []int64
+			for _, c := range live {
+				if eval(last.Cond, c, path) != 0 {
+					t = append(t, c)
+				} else {
+					f = append(f, c)
+				}
+			}
+			walk(b.Succs[0], path, t)
+			walk(b.Succs[1], path, f)
+		case *ssa.Jump:
+			walk(b.Succs[0], path, live)
+		default:
+			bad = true
+		}
+	}
+	all := make([]int64, 256)
+	for i := range all {
+		all[i] = int64(i)
+	}
+	walk(h.Blocks[0], nil, all)
+	if bad || nPaths > 4096 || len(set) == 0 {
+		return nil, false
 	}
 	return set, true
 }
